@@ -366,6 +366,17 @@ func (e *c08Env) start() string {
 	return "ok"
 }
 
+// hasData is the snapshot side of store.HasData, which rqlited calls BEFORE Store.Open when
+// -auto-restore is given: it opens a Snapshot Store on wsnapshots (creating the directory) and lists it.
+func (e *c08Env) hasData() {
+	str, err := NewStore(e.newd())
+	if err != nil {
+		e.t.Fatalf("hasData: NewStore: %v", err)
+	}
+	str.List()
+	str.Close()
+}
+
 func c08ErrKind(msg string) string {
 	switch {
 	case strings.Contains(msg, "file exists"), strings.Contains(msg, "directory not empty"):
@@ -578,6 +589,13 @@ func TestVerifC08(t *testing.T) {
 		var cutDesc []string
 		firstClass := "none"
 		for k := 0; k < nCuts; k++ {
+			if r.Chance(40) {
+				e.hasData()
+				ops = append(ops, "hasdata", "dump")
+				impl = append(impl, "ok", e.dump())
+				cutDesc = append(cutDesc, "hasdata")
+				rep.Count("hasdata-before-interrupted-start")
+			}
 			line, class := e.interruptedStart(r, v7, pristine7, rep)
 			if k == 0 {
 				firstClass = class
@@ -593,6 +611,13 @@ func TestVerifC08(t *testing.T) {
 			if _, err := os.Stat(e.newd()); err == nil {
 				stateClass = "8to10:renamed-plan-pending"
 			}
+		}
+		if r.Chance(40) {
+			e.hasData()
+			ops = append(ops, "hasdata", "dump")
+			impl = append(impl, "ok", e.dump())
+			cutDesc = append(cutDesc, "hasdata")
+			rep.Count("hasdata-before-final-start")
 		}
 		res := e.start()
 		ops = append(ops, "start")
@@ -635,6 +660,9 @@ func c08LastClass(cuts []string) string {
 		return "none"
 	}
 	c := cuts[len(cuts)-1]
+	if c == "hasdata" {
+		return "empty-new-dir-from-data-check"
+	}
 	f := strings.Split(c, " ")
 	parts := strings.Split(f[1], "/")
 	cls := f[0] + ":" + parts[0]
@@ -733,6 +761,16 @@ func (e *c08Env) interruptedStart(r *vfRng, v7 bool, pristine7 string, rep *vfRe
 	if err := Upgrade7To8(e.old7(), e.old8(), c08Logger); err != nil {
 		e.t.Fatalf("Upgrade7To8: %v", err)
 	}
+	// Upgrade8To10 first removes a half-written plan file and an EMPTY new directory (one that the
+	// data check created)
+	removedEmpty := false
+	if exists(e.newd()) && !nonEmpty(e.newd()) {
+		if r.Chance(25) {
+			return "cut810 s", "810:s"
+		}
+		os.Remove(e.newd())
+		removedEmpty = true
+	}
 	os.Remove(e.planPath() + ".tmp")
 	var p *plan.Plan
 	resume := false
@@ -746,6 +784,9 @@ func (e *c08Env) interruptedStart(r *vfRng, v7 bool, pristine7 string, rep *vfRe
 		p = e.capturePlan810()
 	}
 	if p == nil {
+		if removedEmpty {
+			return "cut810 pd", "810:pd"
+		}
 		return "cut810 s", "810:s"
 	}
 	if len(p.Ops) != 7 {
